@@ -7,6 +7,7 @@ import (
 	"errors"
 	"fmt"
 	"sort"
+	"strconv"
 	"strings"
 	"sync"
 
@@ -59,7 +60,7 @@ func langRecover(n int) (r string) {
 }
 
 // LangCases is the number of cases of H_Lang.
-const LangCases = 24
+const LangCases = 26
 
 func H_Lang(k int) {
 	x := verif.IntRange(0, 5)
@@ -235,6 +236,15 @@ func H_Lang(k int) {
 			t += v
 		}
 		verif.ObsInt("r", t)
+	case 24:
+		for _, sp := range []string{"1.5", "2e3", "0.1", "1e22", "123456789e-3", "1e23", "9007199254740993", "1e400", ".5e1", "4.9e-324", "1.7976931348623157e308"} {
+			f, err := strconv.ParseFloat(sp, 64)
+			verif.Obs("f", fmt.Sprint(f, err != nil, uint64(f/1e300)))
+		}
+	case 25:
+		sp := verif.ConcreteStr(verif.BytesIn(3, "0159.e"))
+		f, err := strconv.ParseFloat(sp, 64)
+		verif.Obs("f", fmt.Sprint(sp, f, err != nil))
 	}
 	verif.Cover("lang-case")
 }
